@@ -278,6 +278,26 @@ def inits_check(case, ctx):
     return res
 
 
+def byvalue_check(case, ctx):
+    """Aggregates passed and returned by value, reaching the backend first as named or unnamed parameter or as call
+    argument (C08's structural generator): definitions and calls must agree in class."""
+    from . import c08
+    res = Result()
+    src = c08.struct_unit(case).encode()
+    t = cproc.TARGETS[case["t"] % 3]
+    p = cproc.cc(ctx, src, t, "plain", timeout=60)
+    res.n = 1
+    if p.timeout or p.rc != 0:
+        res.discard.append("rejected-or-timeout")
+        return res
+    check_il(ctx, p, res, "byvalue/%s" % t, src, t, with_clang=False)
+    if res.fail is not None:
+        res.fail["input"] = src.decode("latin-1")
+    res.labels.extend("first-use:%d" % f for f in (case.get("first") or []))
+    res.sample = {"source": "byvalue", "head": src.decode("latin-1")[:200]}
+    return res
+
+
 def gen_sources(ctx):
     try:
         from . import c01
@@ -293,4 +313,5 @@ def sources(ctx):
         Source("fsize", fsize_check, enum=fsize_enum),
         Source("mutant", mutant_check, strategy=mutant_strategy, examples={"quick": 12000, "thorough": 300000}),
         Source("inits", inits_check, strategy=lambda c: __import__("vlib.gen.initgen", fromlist=["x"]).init_cases(), examples={"quick": 500, "thorough": 20000}),
+        Source("byvalue", byvalue_check, strategy=lambda c: __import__("vlib.props.c08", fromlist=["x"]).struct_cases(), examples={"quick": 600, "thorough": 20000}),
     ] + gen_sources(ctx)
